@@ -455,10 +455,14 @@ mod builtins {
                 let len = if start <= end {
                     0
                 } else {
-                    ((start - end + (-step) - 1) / (-step)) as usize
+                    // in i128 this cannot overflow for isize operands
+                    let (start, end, step) = (start as i128, end as i128, step as i128);
+                    usize::try_from((start - end + (-step) - 1) / (-step)).unwrap_or(usize::MAX)
                 };
 
-                let iter = (0..len).map(move |i| start + (i as isize) * step);
+                // every element lies between `end` and `start`, intermediate
+                // products may however exceed the isize range.
+                let iter = (0..len).map(move |i| start.wrapping_add((i as isize).wrapping_mul(step)));
                 to_result(iter)
             }
         }
